@@ -100,7 +100,8 @@ def main():
     out = {"python": list(sys.version_info[:3]), "prop": a.prop, "tier": a.tier, "seed": a.seed, "parts": {}}
     try:
         if a.part in ("corpus", "all") and _checks(a.prop):
-            out["parts"]["corpus"] = run_corpus(a.prop, a.tier, a.seed, a.jobs)
+            want = ("g1", "g2", "g3") if (a.prop in ("C06",) and a.tier != "thorough") else None
+            out["parts"]["corpus"] = run_corpus(a.prop, a.tier, a.seed, a.jobs, want)
         if a.part in ("extra", "all"):
             from . import props2
             props2._load_more()
@@ -112,6 +113,12 @@ def main():
                 out["parts"][name] = res
     except Exception as e:
         out["crash"] = "%s: %s\n%s" % (type(e).__name__, e, traceback.format_exc()[-2000:])
+    if a.prop == "C07" and os.environ.get("PCV_WORKDIR"):
+        try:
+            from . import props5
+            props5.dump_docs(os.path.join(os.environ["PCV_WORKDIR"], "c07-docs-%d.%d.jsonl" % sys.version_info[:2]))
+        except Exception as e:
+            out["crash"] = "cannot write documents for schema validation: %s" % e
     out["wall_s"] = round(time.time() - t0, 2)
     with open(a.out, "w") as f:
         json.dump(out, f, default=repr)
